@@ -108,6 +108,35 @@ def own_nodes(fn):
         stack.extend(ast.iter_child_nodes(n))
 
 
+def normalise(tree):
+    """Canonical form applied to every parsed module before any rule looks at it, so that
+    rules need one shape only:  `tmp = <expr>` immediately followed by `return tmp` (tmp a
+    plain local: it is dead after the return) becomes `return <expr>`."""
+    for fn in [n for n in ast.walk(tree) if isinstance(n, (ast.FunctionDef, ast.Lambda))]:
+        if isinstance(fn, ast.Lambda):
+            continue
+        globs = set()
+        for n in ast.walk(fn):
+            if isinstance(n, (ast.Global, ast.Nonlocal)):
+                globs |= set(n.names)
+        for parent in ast.walk(fn):
+            for fld in ('body', 'orelse', 'finalbody'):
+                body = getattr(parent, fld, None)
+                if not (isinstance(body, list) and body and isinstance(body[0], ast.stmt)):
+                    continue
+                i = 0
+                while i + 1 < len(body):
+                    a, b = body[i], body[i + 1]
+                    if isinstance(a, ast.Assign) and len(a.targets) == 1 and isinstance(a.targets[0], ast.Name) and \
+                            isinstance(b, ast.Return) and isinstance(b.value, ast.Name) and b.value.id == a.targets[0].id and \
+                            b.value.id not in globs:
+                        b.value = a.value
+                        del body[i]
+                        continue
+                    i += 1
+    return tree
+
+
 class Func:
     def __init__(self, module, cls, node):
         self.module = module
@@ -215,7 +244,7 @@ class Module:
         self.src = raw.decode('utf-8')
         self.lines = self.src.splitlines()
         try:
-            self.tree = ast.parse(self.src, filename=relpath)
+            self.tree = normalise(ast.parse(self.src, filename=relpath))
         except SyntaxError as e:
             raise AnalysisError(f'{relpath} does not parse: {e}')
         self.funcs = {}
